@@ -16,34 +16,46 @@
     [syntax_deps] is a parameter (any map), so the theorems hold for whatever [syntax_dependencies]
     computes.
 
-    Guards (DESIGN 2.1): the pinned slicer (commit d1d8fd6) has two defects found by the proof of
-    [slice_self_contained]/[slice_proof_verifies]; the model reproduces them when the guard is off:
+    Guards (DESIGN 2.1): the pinned slicer (tree d1d8fd6) has three defects found by the proof attempts of
+    [slice_self_contained]/[slice_proof_verifies] and confirmed on the real code; they are repaired by
+    fix: commits, and the model reproduces the pinned behaviour when the guard is off:
     - [g_float_consts]: constants of the kept statements (in particular the typecode of a [$f] kept only
       because its variable is needed) are added to the slice's [$c];
-    - [g_top_essential]: a top-level [$e] (mandatory hypothesis of every later assertion) is kept. *)
+    - [g_top_essential]: a top-level [$e] (mandatory hypothesis of every later assertion) is kept;
+    - [g_d_in_place]: a top-level [$d] stays at its position among the kept statements (restricted to
+      the declared variables) instead of being hoisted in front of all of them (where it also
+      constrains assertions that precede it in the database), and no set of frozensets is iterated. *)
 From Coq Require Import String List Bool Arith.
 From Pi2 Require Import MM17.Ast MM17.Print MM17.Parse.
 Import ListNotations.
 Open Scope string_scope.
 
-Record sguards := { g_float_consts : bool; g_top_essential : bool }.
-Definition sguards_fixed := {| g_float_consts := true; g_top_essential := true |}.
-Definition sguards_pinned := {| g_float_consts := false; g_top_essential := false |}.
+Record sguards := { g_float_consts : bool; g_top_essential : bool; g_d_in_place : bool }.
+Definition sguards_fixed := {| g_float_consts := true; g_top_essential := true; g_d_in_place := true |}.
+Definition sguards_pinned := {| g_float_consts := false; g_top_essential := false; g_d_in_place := false |}.
 
 (* ---------------------------------------------------------------- small library *)
-Definition dict := list (string * stmt).
+(** [cut_antecedents].  Keys are labels; the fixed slicer also stores the unlabelled top-level [$d]
+    statements under fresh keys ["$d<n>"] that no label can equal (a token cannot contain "$"):
+    key [None] here. *)
+Definition dict := list (option string * stmt).
+
+Definition key_eqb (k : string) (k' : option string) : bool :=
+  match k' with Some x => String.eqb k x | None => false end.
 
 Fixpoint dict_get (k : string) (d : dict) : option stmt :=
   match d with
   | [] => None
-  | (k', v) :: d' => if String.eqb k k' then Some v else dict_get k d'
+  | (k', v) :: d' => if key_eqb k k' then Some v else dict_get k d'
   end.
 
 Fixpoint dict_set (k : string) (v : stmt) (d : dict) : dict :=
   match d with
-  | [] => [(k, v)]
-  | (k', v') :: d' => if String.eqb k k' then (k, v) :: d' else (k', v') :: dict_set k v d'
+  | [] => [(Some k, v)]
+  | (k', v') :: d' => if key_eqb k k' then (Some k, v) :: d' else (k', v') :: dict_set k v d'
   end.
+
+Definition dict_add_anon (v : stmt) (d : dict) : dict := (d ++ [(None, v)])%list.
 
 Fixpoint assoc_get {A} (k : string) (d : list (string * A)) : option A :=
   match d with
@@ -163,12 +175,23 @@ Definition sugar_of (cut : dict) (l : string) : list string :=
 (* ---------------------------------------------------------------- supporting_database_for_provable *)
 Definition pair_in (mvs : list string) (p : string * string) : bool := mem (fst p) mvs && mem (snd p) mvs.
 
-Definition keep_entry (g : sguards) (needed mvs : list string) (kv : string * stmt) : bool :=
-  mem (fst kv) needed ||
+Definition key_in (k : option string) (l : list string) : bool :=
+  match k with Some x => mem x l | None => false end.
+
+(** the loop over [cut_antecedents.items()] *)
+Definition keep_entry (g : sguards) (needed mvs : list string) (kv : option string * stmt) : list stmt :=
   match snd kv with
-  | SF _ _ v => mem v mvs
-  | SE _ _ => g_top_essential g
-  | _ => false
+  | SD vs =>                                  (* only stored when [g_d_in_place] *)
+      let vs' := filter (fun v => mem v mvs) vs in
+      if Nat.leb 2 (length vs') then [SD vs'] else []
+  | st =>
+      if key_in (fst kv) needed ||
+         match st with
+         | SF _ _ v => mem v mvs
+         | SE _ _ => true                     (* only stored when [g_top_essential] *)
+         | _ => false
+         end
+      then [st] else []
   end.
 
 Definition is_SE (s : stmt) : bool := match s with SE _ _ => true | _ => false end.
@@ -184,13 +207,13 @@ Definition supporting (g : sguards) (cut : dict) (gd : list (string * string))
       match map_opt (fun x => dict_get x cut) n2 with
       | None => None                                                     (* KeyError *)
       | Some nst =>
-          let top_ess := if g_top_essential g then filter is_SE (map snd cut) else [] in
-          let all := (SP l ts pf :: ess ++ nst ++ top_ess)%list in
+          let top_ess := filter is_SE (map snd cut) in
+          let all := (SP l ts pf :: ess ++ top_ess ++ nst)%list in
           match stmts_consts all with
           | None => None
           | Some cs =>
               let mvs := sort_uniq (flat_map stmt_mvs all) in
-              let kept := map snd (filter (keep_entry g n2 mvs) cut) in
+              let kept := flat_map (keep_entry g n2 mvs) cut in
               match (if g_float_consts g then stmts_consts kept else Some []) with
               | None => None
               | Some cs2 =>
@@ -283,7 +306,9 @@ Fixpoint slice_loop (g : sguards) (sd : list (string * list string)) (incl excl 
   | st :: rest =>
       match st with
       | SC _ | SV _ => slice_loop g sd incl excl rest cut gd
-      | SD vs => slice_loop g sd incl excl rest cut (add_pairs vs gd)
+      | SD vs =>
+          if g_d_in_place g then slice_loop g sd incl excl rest (dict_add_anon st cut) gd
+          else slice_loop g sd incl excl rest cut (add_pairs vs gd)
       | SF l _ _ => slice_loop g sd incl excl rest (dict_set l st cut) gd
       | SE l _ =>
           if g_top_essential g then slice_loop g sd incl excl rest (dict_set l st cut) gd
